@@ -103,6 +103,11 @@ class SocketPort(BaseIOPort):
         while _is_readable(self._socket):
             try:
                 byte = self._rfile.read(1)
+            except ConnectionError:
+                # The other end died (connection reset). Treat it
+                # like a disconnect.
+                self.close()
+                break
             except OSError as err:
                 raise OSError(err.args[1]) from err
             if len(byte) == 0:
